@@ -252,6 +252,26 @@ def vectors(ctx):
             V.append({"fn": "bds.is50or60", "frame": f, "spd": spd, "trk": trk, "alt": 0, "case": ["5060", k, spd[0], trk[0]]})
         alt = rng.choice([5000, 10000, 25000, 35000, 41000])
         V.append({"fn": "bds.is50or60", "frame": f, "spd": refs[0][0], "trk": refs[0][1], "alt": alt, "case": ["5060alt", k, alt]})
+        if k % 2 == 0 and head[3] == 1 and head[5] == 1:
+            # the Mach / IAS pre-check is made at the REFERENCE altitude: payloads whose Mach and IAS agree at one pressure altitude
+            # (sea level .. 60 000 ft, the upper part only reachable through 100-ft altitude codes), judged with a reference at
+            # the same and at a different altitude, and with the reference vector on either interpretation - a pre-check made at
+            # any other altitude than the one given shows up as a wrong label (inputs only: ISA by its defining formulas)
+            hp = rng.choice([0, 10000, 25000, 36000, 45000, 50000, 55000, 60000])
+            v2 = rng.randrange(80, 200 if hp > 40000 else 330)
+            hm = hp * 0.3048
+            pr = 101325.0 * (1 - 0.0065 * hm / 288.15) ** 5.25588 if hm <= 11000 else 22632.1 * 2.718281828459045 ** (-(hm - 11000) / 6341.62)
+            qc = 101325.0 * ((1 + 0.2 * (v2 / 661.4786) ** 2) ** 3.5 - 1)
+            m2 = round(((5 * ((qc / pr + 1) ** (2 / 7.0) - 1)) ** 0.5) / 0.004)
+            if 25 <= m2 <= 250:
+                mb2 = pack(60, [1, 0, 2 * r + 1, 1, v2, 1, m2] + [rng.randrange(2) and 1, 0, vb, 1, 0, max(0, min(187, m2 + rng.randint(-60, 60)))])
+                if not (mb2 >> (55 - 34)) & 1:
+                    mb2 &= ~(((1 << 10) - 1) << (55 - 44))
+                f2 = commb_frame(rng, 21, mb2)
+                refs2 = [([2 * m2, 1], [90 * (v2 - 1024) + 360 * 512, 512]), ([v2, 1], [hdg_num, 512]), ([round(661.48 * m2 / 250), 1], [hdg_num, 512])]
+                for href in (hp, rng.choice([0, 25000, 45000, 50000, 55000, 60000])):
+                    for spd, trk in refs2:
+                        V.append({"fn": "bds.is50or60", "frame": f2, "spd": spd, "trk": trk, "alt": href, "case": ["5060hp", k, hp, href, spd[0]]})
         if k % 10 == 0:
             add_all(f, ["5060", k], isfns=False)
     for k in range(ctx.pick(200, 4000)):
